@@ -540,7 +540,7 @@ func checkPathPrefix(c *core.Ctx, l *core.Ledger) {
 				}
 			case *ssa.UnOp:
 				if fa, ok := y.X.(*ssa.FieldAddr); ok && core.FieldOf(fa) != nil {
-					n := core.FieldOf(fa).Name()
+					n := core.FieldName(core.FieldOf(fa))
 					if strings.HasSuffix(n, "Path") || strings.HasSuffix(n, "Root") || strings.HasSuffix(n, "Dir") || strings.HasSuffix(n, "Directory") {
 						return true
 					}
